@@ -479,6 +479,8 @@ def execE (c : Ctx) (env : Env) (es : EState) : (p : Prim) → Except Halt (p.Re
       (Except.ok { es with s := s' })
     r.map fun e => ((), e)
   | .flush false =>
+    -- a database that was never written to has no store and no caches: Flush returns at once (repaired upstream)
+    if !es.s.hasDb c.db then .ok ((), es) else
     match flushDb es.s c.db with
     | none => .error (.panic "Flush of an absent database")
     | some s' => (flushCaches { es with s := s' } c.db).map fun e => ((), e)
